@@ -12,6 +12,7 @@ import (
 	"encoding/pem"
 	"fmt"
 	"math/big"
+	"sort"
 	"strings"
 	"sync"
 	"time"
@@ -162,6 +163,15 @@ func (p *c19pki) serverChain(kind string) *tls.Certificate {
 	}
 	_, der := mintCert(spec, leafKey, signer, signerKey, 1000)
 	return &tls.Certificate{Certificate: append([][]byte{der}, chain...), PrivateKey: leafKey}
+}
+
+func keysOfBool(m map[string]bool) []string {
+	var out []string
+	for k := range m {
+		out = append(out, k)
+	}
+	sort.Strings(out)
+	return out
 }
 
 func c19Valid(kind string, expiredNow bool) bool {
@@ -362,6 +372,14 @@ func c19(e *Env) {
 			}
 		}),
 	}
+	// one of several contact points is down while the proxy starts: the others are tried, each
+	// under its own name
+	downAtBoot := false
+	if len(w.Nodes) > 1 && c.Choose("contact-point-down-at-boot", 3) == 2 {
+		w.Nodes[c.Choose("which-contact-point-down", len(w.Nodes))].Crash()
+		downAtBoot = true
+		e.Res.Stats["probe.c19.contact_point_down_at_boot"]++
+	}
 	// the proxy, configured from the bundle
 	pi := w.StartProxy("127.0.0.1:9042", nil, func(pc *proxy.Config) {
 		pc.Resolver = astra.NewResolver(bundle, 10*time.Second)
@@ -417,6 +435,26 @@ func c19(e *Env) {
 		return true
 	}
 	if !check() {
+		return
+	}
+	if downAtBoot && wantBoot && !booted {
+		// Whether a proxy starts while one of its nodes is down is not this property's business (the
+		// SNI proxy closes the connection after the handshake, which start-up may or may not
+		// tolerate). What is: it did not give up before it had asked for every contact point that
+		// is up, each under its own name.
+		asked := map[string]bool{}
+		for _, r := range recs {
+			if r.service == "sni-proxy" {
+				asked[r.sni] = true
+			}
+		}
+		for id, n := range hostID {
+			if n.Up && !asked[id] {
+				w.Violate("c19-identity", "live-contact-point-never-asked-for", fmt.Sprintf("%s: start-up failed (%v) with node %s up, but no connection ever named it in the SNI (names seen: %v)", detail, pi.BootErr, n, keysOfBool(asked)))
+				return
+			}
+		}
+		e.Res.Stats["probe.c19.startup_failed_with_a_node_down"]++
 		return
 	}
 	if booted != wantBoot {
